@@ -267,41 +267,41 @@ func genC19(g *Gen, tier string, emit func(op string, args ...string)) {
 	authCh := unhx("5b5d7c7d7b3f2f3e3c2c602132262628")
 	peerCh := unhx("21402324255e262a28295f2b3a337c7e")
 	ntr := unhx("82309ecd8d708b5ea08faa3981cd83544233114a3d85d6df")
-	emit("ntresp", hx(authCh), hx(peerCh), hx(user), hx(pass))
-	emit("authresp", hx(authCh), hx(peerCh), hx(ntr), hx(user), hx(pass))
-	emit("makekey", hx(ntr), hx(pass), "1")
-	emit("makekey", hx(ntr), hx(pass), "0")
+	emit("ntresp", hxIn(authCh), hxIn(peerCh), hxIn(user), hxIn(pass))
+	emit("authresp", hxIn(authCh), hxIn(peerCh), hxIn(ntr), hxIn(user), hxIn(pass))
+	emit("makekey", hxIn(ntr), hxIn(pass), "1")
+	emit("makekey", hxIn(ntr), hxIn(pass), "0")
 	// every session key length 0..20 (and the lengths beyond, observed only) x both directions
 	mks := [][]byte{unhx("fdece3717a8c838cb388e527ae3cdd31"), make([]byte, 16), g.RandBytes(16), g.RandBytes(16)}
 	for _, mk := range mks {
 		for l := 0; l <= 26; l++ {
-			emit("startkey", hx(mk), itoa(l), "1")
-			emit("startkey", hx(mk), itoa(l), "0")
+			emit("startkey", hxIn(mk), itoa(l), "1")
+			emit("startkey", hxIn(mk), itoa(l), "0")
 		}
 	}
 	for _, l := range []int{32, 64, 1 << 20} {
-		emit("startkey", hx(mks[0]), itoa(l), "1")
+		emit("startkey", hxIn(mks[0]), itoa(l), "1")
 	}
 	// master keys, NT responses, challenges and password hashes of every length 0..130 (the sizes of the
 	// neighbouring protocol fields — 49/50-octet MS-CHAP2-Response values, 8/16/24/32 — lie in between)
 	for l := 0; l <= 130; l++ {
-		emit("startkey", hx(g.Bytes(l)), itoa(g.Pick(8, 16)), b01(g.Bool()))
-		emit("makekey", hx(g.Bytes(l)), hx(g.c19Password()), b01(g.Bool()))
-		emit("makekey", hx(g.Bytes(l)), hx(g.c19Password()), b01(g.Bool()))
-		emit("masterkey", hx(g.Bytes(16)), hx(g.Bytes(l)))
-		emit("masterkey", hx(g.Bytes(l)), hx(g.Bytes(24)))
-		emit("authresp", hx(g.Bytes(16)), hx(g.Bytes(16)), hx(g.Bytes(l)), "55", hx(g.c19Password()))
+		emit("startkey", hxIn(g.Bytes(l)), itoa(g.Pick(8, 16)), b01(g.Bool()))
+		emit("makekey", hxIn(g.Bytes(l)), hxIn(g.c19Password()), b01(g.Bool()))
+		emit("makekey", hxIn(g.Bytes(l)), hxIn(g.c19Password()), b01(g.Bool()))
+		emit("masterkey", hxIn(g.Bytes(16)), hxIn(g.Bytes(l)))
+		emit("masterkey", hxIn(g.Bytes(l)), hxIn(g.Bytes(24)))
+		emit("authresp", hxIn(g.Bytes(16)), hxIn(g.Bytes(16)), hxIn(g.Bytes(l)), "55", hxIn(g.c19Password()))
 	}
 	// key expansion: every single key bit, every octet pattern in every position, all lengths 0..12
 	for bit := 0; bit < 56; bit++ {
 		k := make([]byte, 7)
 		k[bit/8] = 0x80 >> uint(bit%8)
-		emit("paritypad", hx(k))
-		emit("descrypt", hx(k), hx(g.RandBytes(8)))
+		emit("paritypad", hxIn(k))
+		emit("descrypt", hxIn(k), hxIn(g.RandBytes(8)))
 		for i := range k {
 			k[i] ^= 0xff
 		}
-		emit("paritypad", hx(k))
+		emit("paritypad", hxIn(k))
 	}
 	for pos := 0; pos < 7; pos++ {
 		stepv := 1
@@ -311,24 +311,24 @@ func genC19(g *Gen, tier string, emit func(op string, args ...string)) {
 		for v := 0; v < 256; v += stepv {
 			k := g.RandBytes(7)
 			k[pos] = byte(v)
-			emit("paritypad", hx(k))
+			emit("paritypad", hxIn(k))
 		}
 	}
 	for l := 0; l <= 12; l++ {
-		emit("paritypad", hx(g.RandBytes(l)))
-		emit("descrypt", hx(g.RandBytes(l)), hx(g.RandBytes(8)))
-		emit("descrypt", hx(g.RandBytes(7)), hx(g.RandBytes(l)))
-		emit("descrypt", hx(g.RandBytes(8)), hx(g.RandBytes(l)))
+		emit("paritypad", hxIn(g.RandBytes(l)))
+		emit("descrypt", hxIn(g.RandBytes(l)), hxIn(g.RandBytes(8)))
+		emit("descrypt", hxIn(g.RandBytes(7)), hxIn(g.RandBytes(l)))
+		emit("descrypt", hxIn(g.RandBytes(8)), hxIn(g.RandBytes(l)))
 	}
 	for l := 0; l <= 24; l++ {
-		emit("chresp", hx(g.RandBytes(8)), hx(g.RandBytes(l)))
-		emit("chresp", hx(g.RandBytes(l)), hx(g.RandBytes(16)))
+		emit("chresp", hxIn(g.RandBytes(8)), hxIn(g.RandBytes(l)))
+		emit("chresp", hxIn(g.RandBytes(l)), hxIn(g.RandBytes(16)))
 	}
 	// every boundary scalar alone and in pairs; every password length 0..256 once
 	for _, r := range c19Boundary {
-		emit("utf16", hx(utf8.AppendRune(nil, r)))
+		emit("utf16", hxIn(utf8.AppendRune(nil, r)))
 		for _, r2 := range c19Boundary {
-			emit("ntpw", hx(utf8.AppendRune(utf8.AppendRune(nil, r), r2)))
+			emit("ntpw", hxIn(utf8.AppendRune(utf8.AppendRune(nil, r), r2)))
 		}
 	}
 	for l := 0; l <= 256; l++ {
@@ -337,12 +337,12 @@ func genC19(g *Gen, tier string, emit func(op string, args ...string)) {
 		for i := 0; i < l; i++ {
 			b = utf8.AppendRune(b, g.c19Rune(st))
 		}
-		emit("ntresp", hx(g.RandBytes(16)), hx(g.RandBytes(16)), hx(g.c19User()), hx(b))
+		emit("ntresp", hxIn(g.RandBytes(16)), hxIn(g.RandBytes(16)), hxIn(g.c19User()), hxIn(b))
 	}
 	// SHA-1 / MD4 padding boundaries
 	for _, l := range []int{0, 1, 54, 55, 56, 57, 63, 64, 65, 118, 119, 120, 127, 128, 129, 511, 512, 513} {
-		emit("nthash", hx(g.Bytes(l)))
-		emit("chash", hx(g.Bytes(l)), "-", "-")
+		emit("nthash", hxIn(g.Bytes(l)))
+		emit("chash", hxIn(g.Bytes(l)), "-", "-")
 	}
 
 	// --- random part
@@ -352,10 +352,10 @@ func genC19(g *Gen, tier string, emit func(op string, args ...string)) {
 	}
 	for i := 0; i < n; i++ {
 		pw := g.c19Pw()
-		emit("utf16", hx(pw))
-		emit("ntpw", hx(g.c19Pw()))
-		emit("nthash", hx(g.Bytes(g.Pick(0, 2, 16, 20, 32, 56, 64, 100, 512))))
-		emit("chash", hx(g.c19Challenge()), hx(g.c19Challenge()), hx(g.c19User()))
+		emit("utf16", hxIn(pw))
+		emit("ntpw", hxIn(g.c19Pw()))
+		emit("nthash", hxIn(g.Bytes(g.Pick(0, 2, 16, 20, 32, 56, 64, 100, 512))))
+		emit("chash", hxIn(g.c19Challenge()), hxIn(g.c19Challenge()), hxIn(g.c19User()))
 		ch := g.RandBytes(8)
 		ph := g.Bytes(16)
 		if g.Chance(1, 10) {
@@ -364,28 +364,28 @@ func genC19(g *Gen, tier string, emit func(op string, args ...string)) {
 		if g.Chance(1, 10) {
 			ph = g.Bytes(g.Pick(0, 7, 14, 15, 16, 17, 20, 21, 22, 32))
 		}
-		emit("chresp", hx(ch), hx(ph))
+		emit("chresp", hxIn(ch), hxIn(ph))
 		// DESCrypt: 7- and 8-octet keys (the 8-octet key with the parity bits of its 7-octet form, or random)
 		k7 := g.Bytes(7)
 		clear := g.RandBytes(8)
-		emit("descrypt", hx(k7), hx(clear))
-		emit("paritypad", hx(k7))
-		emit("descrypt", hx(g.RandBytes(8)), hx(clear))
+		emit("descrypt", hxIn(k7), hxIn(clear))
+		emit("paritypad", hxIn(k7))
+		emit("descrypt", hxIn(g.RandBytes(8)), hxIn(clear))
 		if g.Chance(1, 8) {
-			emit("descrypt", hx(g.RandBytes(g.Pick(0, 1, 6, 9, 16))), hx(g.RandBytes(g.Pick(7, 8, 9))))
+			emit("descrypt", hxIn(g.RandBytes(g.Pick(0, 1, 6, 9, 16))), hxIn(g.RandBytes(g.Pick(7, 8, 9))))
 		}
-		emit("ntresp", hx(g.c19Challenge()), hx(g.c19Challenge()), hx(g.c19User()), hx(pw))
-		emit("authresp", hx(g.c19Challenge()), hx(g.c19Challenge()), hx(g.c19NTResponse()), hx(g.c19User()), hx(g.c19Pw()))
+		emit("ntresp", hxIn(g.c19Challenge()), hxIn(g.c19Challenge()), hxIn(g.c19User()), hxIn(pw))
+		emit("authresp", hxIn(g.c19Challenge()), hxIn(g.c19Challenge()), hxIn(g.c19NTResponse()), hxIn(g.c19User()), hxIn(g.c19Pw()))
 		phh := g.Bytes(16)
 		if g.Chance(1, 8) {
 			phh = g.Bytes(g.Pick(0, 15, 17, 20))
 		}
-		emit("masterkey", hx(phh), hx(g.c19NTResponse()))
+		emit("masterkey", hxIn(phh), hxIn(g.c19NTResponse()))
 		mk := g.Bytes(16)
 		if g.Chance(1, 6) {
 			mk = g.Bytes(g.Pick(0, 8, 15, 17, 20, 32))
 		}
-		emit("startkey", hx(mk), itoa(g.Pick(8, 16, g.Intn(21), g.Intn(21))), b01(g.Bool()))
-		emit("makekey", hx(g.c19NTResponse()), hx(g.c19Pw()), b01(g.Bool()))
+		emit("startkey", hxIn(mk), itoa(g.Pick(8, 16, g.Intn(21), g.Intn(21))), b01(g.Bool()))
+		emit("makekey", hxIn(g.c19NTResponse()), hxIn(g.c19Pw()), b01(g.Bool()))
 	}
 }
